@@ -1,7 +1,10 @@
 SPEC = {
     "claimed": False,
     "gen": ["gamenet"],
-    "theorems": ["C14_codecs_match_tw05"],
+    "theorems": ["C14_codecs_match_tw05", "C14_codecs_match_tw06", "C14_codecs_match_tw07",
+                 "C14_codecs_match_ddnet", "C14_wf_all", "C14_roundtrip", "C14_msg_roundtrip",
+                 "C14_generated_roundtrip", "C14_rejects", "C14_rejects_short", "C14_total",
+                 "C14_obj_words", "C14_k14_objects", "K14_refuted", "K14_refuted_length", "C14_nonvacuous"],
     "allowed_axioms": [],
     "extract": {
         "LibTw2.Model.Codec": ["decode_sysgame", "decode_connless", "encode_msg", "decode_snap_obj",
